@@ -72,7 +72,8 @@ def build_host(variant: str, fd: int, sd: int, rd: int, nd: int, via_defaults: b
         sw_kind, sw_name, folder, files = "service", "web-server", "vf", ("a.txt", "b.txt")
     else:
         a["applications"] = [{"type": "database-client", "options": {"fixing_duration": fd, "db_server_ip": "192.168.1.3"}}]
-        sw_kind, sw_name, folder, files = "application", "database-client", "vf", ("a.txt", "b.txt")
+        # (files of an unknown type have size 0: the folder holds files, yet its size is 0)
+        sw_kind, sw_name, folder, files = "application", "database-client", "vf", ("key", "x.qq9")
     game = scenarios.build(cfg)
     sim = game.simulation
     node = sim.network.get_node_by_hostname("a")
